@@ -59,7 +59,7 @@ EmptyState == [refs |-> <<>>, logs |-> <<>>, staged |-> <<>>, status |-> <<>>,
 
 StatusOf(s, tx) == IF tx \in DOMAIN s.status THEN s.status[tx] ELSE "absent"
 StagedOf(s, tx) == {k[2] : k \in {q \in DOMAIN s.staged : q[1] = tx}}
-Head(s, b)      == Cur(s.refs, b)
+HeadOf(s, b)    == Cur(s.refs, b)
 TxEntries(s, tx, b) == {i \in 1..Len(LogOf(s.logs, b)) : LogOf(s.logs, b)[i][3] = tx}
 Logged(s, tx, b)    == TxEntries(s, tx, b) # {}
 
@@ -79,11 +79,11 @@ StartTx(s, tx) == [s EXCEPT !.status = Put(s.status, tx, "inprogress")]
 (* `wrgl commit --txid`: a commit object on top of the current head, named *)
 (* by the staged ref only                                                  *)
 Stage(s, tx, b, tbl) ==
-  LET r == FreshCommit(s.commits, tbl, Head(s, b)) IN
+  LET r == FreshCommit(s.commits, tbl, HeadOf(s, b)) IN
   [s EXCEPT !.commits = r[1], !.staged = Put(s.staged, <<tx, b>>, r[2])]
 
 PlainCommit(s, b, tbl) ==
-  LET r == FreshCommit(s.commits, tbl, Head(s, b))
+  LET r == FreshCommit(s.commits, tbl, HeadOf(s, b))
       w == SetWithLog(s.refs, s.logs, b, r[2], 0)
   IN [s EXCEPT !.commits = r[1], !.refs = w.refs, !.logs = w.logs]
 
@@ -93,7 +93,7 @@ PlainCommit(s, b, tbl) ==
 (* object store write: the staged commit re-parented on the current head *)
 NewCommitObj(s, tx, b) ==
   LET src == s.staged[<<tx, b>>]
-      r == AddCommit(s.commits, [tbl |-> s.commits[src].tbl, par |-> Head(s, b), tx |-> tx, src |-> src])
+      r == AddCommit(s.commits, [tbl |-> s.commits[src].tbl, par |-> HeadOf(s, b), tx |-> tx, src |-> src])
   IN <<[s EXCEPT !.commits = r[1]], r[2]>>
 
 (* ref store SetWithLog with the transaction id in the log entry *)
@@ -207,7 +207,7 @@ MovedOnce(s, tx, b) ==
          c == s.commits[e[2]]
      IN /\ c.tx = tx /\ c.par = e[1]
         /\ <<tx, b>> \in DOMAIN s.staged => (c.src = s.staged[<<tx, b>>] /\ c.tbl = s.commits[c.src].tbl)
-  /\ ChainCount(s, Head(s, b), tx) = 1
+  /\ ChainCount(s, HeadOf(s, b), tx) = 1
 
 NoneMoved(s, tx, B) == \A b \in B : ~Logged(s, tx, b)
 Complete(s, tx, B)  == StatusOf(s, tx) = "committed" /\ \A b \in B : MovedOnce(s, tx, b)
@@ -233,12 +233,16 @@ cfg == Cfg(st, run)
 Become(c) == st' = c.s /\ run' = c.run
 Idle == ~Running(run)
 
+(* some branches exist already *)
+RECURSIVE WithBases(_, _)
+WithBases(s, bs) ==
+  IF bs = {} THEN s
+  ELSE LET b == CHOOSE x \in bs : TRUE IN
+       WithBases(PlainCommit(s, b, 100 + Len(s.commits)), bs \ {b})
+
 MCInit ==
   /\ \E E \in SUBSET MCBranches :
-       LET RECURSIVE Base(_, _)
-           Base(s, bs) == IF bs = {} THEN s
-                          ELSE LET b == CHOOSE x \in bs : TRUE IN Base(PlainCommit(s, b, 100 + Len(s.commits)), bs \ {b})
-       IN st = [Base(EmptyState, E) EXCEPT !.status = [t \in MCTxs |-> "inprogress"]]
+       st = [WithBases(EmptyState, E) EXCEPT !.status = [t \in MCTxs |-> "inprogress"]]
   /\ run = NoRun
   /\ budget = [faults |-> MCFaults, plain |-> MCPlain]
 
